@@ -57,6 +57,12 @@ class Scratch:
             f.write(text)
         return path
 
+    def write_bytes(self, name, data):
+        path = os.path.join(self.dir, name)
+        with open(path, "wb") as f:
+            f.write(data)
+        return path
+
     def close(self):
         shutil.rmtree(self.dir, ignore_errors=True)
 
@@ -101,6 +107,15 @@ def entry_calls(text, strict, scratch, rng=None, which="all"):
                 # by file name: Python's text layer translates line breaks before the library sees them
                 add("open(%s)" % nm, "named", path,
                     lambda path=path: simfile.open(path, strict=strict, encoding="utf-8"), seen=tr)
+            # by file name with the encoding DETECTED, right after a file in another encoding was opened in this process
+            nm = NAMES[len(text) % len(NAMES)]
+            path = scratch.write(nm, text)
+            other = scratch.write_bytes("legacy.sm", b"#TITLE:caf\xe9;\n#ARTIST:\x93quoted\x94;\n")
+
+            def via_detect(path=path, other=other):
+                simfile.open(other)
+                return simfile.open(path, strict=strict)
+            add("open-detected(%s)" % nm, "named", path, via_detect, seen=tr)
     return out
 
 
